@@ -478,6 +478,10 @@ func (g *generator) Build(
 	source, target *xtype.Type,
 	errPath builder.ErrorPath,
 ) ([]jen.Code, *xtype.JenID, *builder.Error) {
+	if g.skipsCopy(ctx, source, target) {
+		return g.buildNoLookup(ctx, sourceID, source, target, errPath)
+	}
+
 	stmt, nextID, err := g.callExisting(ctx, sourceID, source, target, errPath)
 	if nextID != nil || err != nil {
 		return stmt, nextID, err
@@ -490,6 +494,21 @@ func (g *generator) Build(
 	return g.buildNoLookup(ctx, sourceID, source, target, errPath)
 }
 
+// skipsCopy reports whether the method's skipCopySameType applies to this conversion: identical types are
+// then assigned as they are, also when a helper for the pair has been generated for another method.
+// Custom functions and declared methods for the pair are still used.
+func (g *generator) skipsCopy(ctx *builder.MethodContext, source, target *xtype.Type) bool {
+	if !ctx.Conf.SkipCopySameType || source.String != target.String {
+		return false
+	}
+	signature := xtype.SignatureOf(source, target)
+	if def, _ := g.extend.Get(signature, ctx.AvailableContext); def != nil || g.extend.Has(signature) {
+		return false
+	}
+	genMethod, _ := g.lookup.Get(signature, ctx.AvailableContext)
+	return genMethod != nil && !genMethod.Explicit
+}
+
 // Assign builds an implementation for the given source and target type, or uses an existing method for it.
 func (g *generator) Assign(
 	ctx *builder.MethodContext,
@@ -500,6 +519,10 @@ func (g *generator) Assign(
 ) ([]jen.Code, *builder.Error) {
 	if assignTo.Must {
 		return builder.ToAssignable(assignTo)(g.Build(ctx, sourceID, source, target, errPath))
+	}
+
+	if g.skipsCopy(ctx, source, target) {
+		return g.assignNoLookup(ctx, assignTo, sourceID, source, target, errPath)
 	}
 
 	// A generated helper returns a fresh value: calling it would replace the value that is being updated
